@@ -696,11 +696,12 @@ pub fn validate(a: &[u128]) -> Vec<u128> {
     let bs = a[3] as u8;
     let validator = a[4];
     let okind = a[5];
-    let mut ob = Ob::intact(okind, &data, bs);
+    let mut ob = Ob::intact(if okind == 5 { 0 } else { okind }, &data, bs);
     let ncor = a[6] as usize;
     for k in 0..ncor {
         let (w, pos, delta) = (a[7 + 3 * k], a[8 + 3 * k] as usize, a[9 + 3 * k] as u8);
         match w {
+            7 => {}
             0 => {
                 if !data.is_empty() {
                     let p = pos % data.len();
@@ -745,6 +746,42 @@ pub fn validate(a: &[u128]) -> Vec<u128> {
         Ok(r) => out.push((r.start.0, r.end.0)),
         Err(e) => rc = 1 + kind_code(e.kind()),
     };
+    if okind == 5 {
+        // a node-keyed store ("use the node number as the key") that answers None for pairs never stored
+        use sync::Outboard;
+        let t = ob.tree();
+        let missing: Vec<u128> = (0..ncor).filter(|k| a[7 + 3 * k] == 7).map(|k| a[8 + 3 * k]).collect();
+        let mut map = std::collections::BTreeMap::new();
+        let mut slot = 0u128;
+        for n in t.pre_order_nodes_iter() {
+            if let Ok(Some(p)) = with_ob!(&ob, o => o.load(n)) {
+                if !missing.contains(&slot) {
+                    map.insert(nv(n), p);
+                }
+                slot += 1;
+            }
+        }
+        let mut m = MapOb { root: ob.root(), tree: t, map };
+        match validator {
+            0 => for r in sync::valid_ranges(&m, &data[..], &ranges) { push(r) },
+            1 => for r in sync::valid_outboard_ranges(&m, &ranges) { push(r) },
+            2 => {
+                let bytes = Bytes::from(data.clone());
+                let mut s = Box::pin(fsm::valid_ranges(&mut m, bytes, &ranges));
+                while let Some(r) = block_on(s.next()) { push(r) }
+            }
+            _ => {
+                let mut s = Box::pin(fsm::valid_outboard_ranges(&mut m, &ranges));
+                while let Some(r) = block_on(s.next()) { push(r) }
+            }
+        }
+        let mut o = vec![rc, out.len() as u128];
+        for (s, e) in out {
+            o.push(s as u128);
+            o.push(e as u128);
+        }
+        return o;
+    }
     match validator {
         0 => with_ob!(&ob, o => for r in sync::valid_ranges(o, &data[..], &ranges) { push(r) }),
         1 => with_ob!(&ob, o => for r in sync::valid_outboard_ranges(o, &ranges) { push(r) }),
@@ -872,6 +909,18 @@ impl sync::Outboard for MapOb {
         self.tree
     }
     fn load(&self, node: bao_tree::TreeNode) -> io::Result<Option<(blake3::Hash, blake3::Hash)>> {
+        Ok(self.map.get(&nv(node)).copied())
+    }
+}
+
+impl fsm::Outboard for MapOb {
+    fn root(&self) -> blake3::Hash {
+        self.root
+    }
+    fn tree(&self) -> BaoTree {
+        self.tree
+    }
+    async fn load(&mut self, node: bao_tree::TreeNode) -> io::Result<Option<(blake3::Hash, blake3::Hash)>> {
         Ok(self.map.get(&nv(node)).copied())
     }
 }
